@@ -5267,6 +5267,13 @@ class NetCDFWrite(IOWrite):
         g["filename"] = filename
         g["netcdf"] = self.file_open(filename, mode, fmt, fields)
 
+        if g["post_dry_run"]:
+            # Every name that is in use in the dataset must be known,
+            # whether or not the dry run came across it, so that it is
+            # never given to a new netCDF variable or dimension
+            g["ncvar_names"].update(g["netcdf"].variables)
+            g["ncvar_names"].update(g["netcdf"].dimensions)
+
         if not g["dry_run"]:
             # --------------------------------------------------------
             # Write global properties to the file first. This is
